@@ -14,17 +14,25 @@ import numpy as np
 from . import bus
 
 
+class TraceCut(BaseException):
+    """Raised by the recorder (never by the library) to end a run whose trace reached the recorder's step cap: a search
+    that keeps finding new lowest measures (by rounding-level amounts, on problems whose measure hardly depends on the
+    enabled moves) legitimately never sits out its budget; what was recorded up to the cap is still checked."""
+
+
 class RanPastBudget(Exception):
     """Raised from the acceptance wrapper when, by the specification, the search
     should already have stopped (keeps a broken loop from running forever)."""
 
 
 class Tracer:
-    def __init__(self, n_steps=None, slack=3):
+    def __init__(self, n_steps=None, slack=3, max_steps=None):
         self.events = []
         self._in_accept = None
         self.n_steps = n_steps
         self.slack = slack
+        self.max_steps = max_steps
+        self._steps = 0
         self._e_min = None
         self._counter = 0
 
@@ -70,6 +78,9 @@ class Tracer:
                 self._counter += 1
             if self.n_steps is not None and self._counter > self.n_steps + self.slack:
                 raise RanPastBudget(f'{self._counter} consecutive non-improving steps, budget {self.n_steps}')
+            self._steps += 1
+            if self.max_steps is not None and self._steps >= self.max_steps and self._counter < (self.n_steps or 0):
+                raise TraceCut(f'{self._steps} steps recorded')
             return d
         return accept_metropolis
 
@@ -141,7 +152,7 @@ def classify_proposal(held, prop, move_events, tol=1e-9):
     return kinds
 
 
-def check_trace(events, initial, n_steps, sim_type, returned):
+def check_trace(events, initial, n_steps, sim_type, returned, cut=False):
     """Replay the events of one run.  Returns (problems, stats); problems is a
     list of (mechanism, message)."""
     problems = []
@@ -231,6 +242,9 @@ def check_trace(events, initial, n_steps, sim_type, returned):
             else:
                 counter += 1
             pending_chi2, pending_moves = [], []
+    if cut:
+        # the recorder ended the run itself: the stopping rule and the returned configuration were not observed
+        return problems, stats
     if pending_chi2:
         problems.append(('evaluation-without-decision', f'{len(pending_chi2)} overlap evaluations after the last decision'))
     if counter != n_steps:
